@@ -36,7 +36,7 @@ def _spd(g, n, cond_hi, lo=-1.0, hi=0.5):
 def gen_case(g, tier, idx, base=None):
     r = g.r
     style = r.choice(["plain", "plain", "wna", "wna", "gausslik", "gausslik", "samebelief", "tiny", "zeros", "illcond",
-                      "neardup", "neardup", "scale", "scale", "many"])
+                      "neardup", "neardup", "scale", "scale", "many", "singular"])
     big_n = 4
     n = r.randint(1, big_n)
     k = r.randint(1, 8)
@@ -52,6 +52,8 @@ def gen_case(g, tier, idx, base=None):
         k = r.choice([16, 17, 31, 32, 33, 40])
     if style == "neardup":
         k = r.randint(2, 8)
+    if style == "singular":
+        n = r.randint(2, 4)
     m = r.randint(1, 3)
     pred_kind = r.choice([0, 1])
     corr_kind = r.choice([0, 1, 2])
@@ -101,6 +103,14 @@ def gen_case(g, tier, idx, base=None):
     else:
         means = [g.vec(n, -2, 2) for _ in range(k)]
         covs = [_spd(g, n, cond_hi) for _ in range(k)]
+    if style == "singular":
+        # exactly representable, exactly singular PSD covariances B B^T (rank < n), per particle
+        covs = []
+        for i in range(k):
+            rk = r.randint(1, n - 1)
+            B = [[r.randint(-4, 4) / 2.0 for _ in range(rk)] for _ in range(n)]
+            covs.append([[sum(B[a][c] * B[b][c] for c in range(rk)) for b in range(n)] for a in range(n)])
+        means = [[g.dyadic(-2, 2, 3) for _ in range(n)] for _ in range(k)]
     states = [[means[i][j] + r.uniform(-1, 1) for j in range(n)] for i in range(k)]
     if style == "neardup":
         # consecutive particles equal, or equal up to a tiny relative perturbation (along one direction)
@@ -187,6 +197,14 @@ def gen_case(g, tier, idx, base=None):
             else:
                 st["lik"] = {"kind": 1, "c": [r.uniform(0.05, 3.0) for _ in range(k)], "a": g.vec(n, -2, 2)}
         steps.append(st)
+    if style == "singular":
+        # one correction whose wrapped step is skipped: the draw uses the singular covariance itself
+        cs = [st for st in steps if st["kind"] == "C"][:1]
+        cs[0].update(skip=True, valid=True, inplace=False, move=0)
+        cs[0].pop("front_valid", None)
+        if cs[0]["lik"]["kind"] == 2:
+            cs[0]["lik"]["fail"] = 0
+        steps = cs
     if style == "many":
         steps = steps[:3]
         if not any(st["kind"] == "C" and st["valid"] for st in steps):
@@ -466,6 +484,33 @@ def gauss_logpdf_exact(d, P):
     return -0.5 * (n * LOG2PI + log_frac(det) + float(quad)), quad, cond, Pinv
 
 
+def nullspace_frac(A):
+    """basis of the kernel of a square matrix of doubles, exact (rational row reduction)"""
+    n = len(A)
+    Mx = [[Fraction(x) for x in row] for row in A]
+    piv, rrow = [], 0
+    for c in range(n):
+        p = next((r_ for r_ in range(rrow, n) if Mx[r_][c] != 0), None)
+        if p is None:
+            continue
+        Mx[rrow], Mx[p] = Mx[p], Mx[rrow]
+        pv = Mx[rrow][c]
+        Mx[rrow] = [x / pv for x in Mx[rrow]]
+        for r_ in range(n):
+            if r_ != rrow and Mx[r_][c] != 0:
+                f = Mx[r_][c]
+                Mx[r_] = [a - f * b for a, b in zip(Mx[r_], Mx[rrow])]
+        piv.append(c); rrow += 1
+    basis = []
+    for fc in [c for c in range(n) if c not in piv]:
+        w = [Fraction(0)] * n
+        w[fc] = Fraction(1)
+        for r_, c in enumerate(piv):
+            w[c] = -Mx[r_][fc]
+        basis.append(w)
+    return basis
+
+
 def safe_exp(x):
     return math.exp(x) if x > -745.0 else 0.0
 
@@ -659,6 +704,34 @@ def analyse(M, Hh, acc):
                        or cur.covs[i * n * n:(i + 1) * n * n] != hs["dcovs"][i * n * n:(i + 1) * n * n]]
                 prop.append(("belief-not-wrapped-step", "%s: beliefs of particles %s differ from the wrapped %s step run directly on the same beliefs"
                              % (tag, bad, "prediction" if st["kind"] == "P" else "correction")))
+        if M["style"] == "singular" and st["kind"] == "C":
+            # singular P': there is no proposal density (the code's weights are not decided); the position
+            # clause that remains is the support: x - mu' is orthogonal to the kernel of P' (gpf_sample_support)
+            for i in range(k):
+                P = cur.cov(i); mu = cur.mean(i, fh)
+                if any(not math.isfinite(unhex(a)) for a in cur.states[i * n:(i + 1) * n]):
+                    prop.append(("singular-covariance-nan-position", "%s: non-finite position for a singular positive semi-definite covariance (particle %d): "
+                                 "the square root of a rounding-negative LDLT pivot" % (tag, i)))
+                    continue
+                x = cur.state(i, fh)
+                v = [a - b for a, b in zip(x, mu)]
+                vmax = max([abs(float(a)) for a in v] + [1e-300])
+                for wv in nullspace_frac(P):
+                    dotp = abs(float(sum(a * b for a, b in zip(v, wv))))
+                    wmax = max(abs(float(a)) for a in wv)
+                    # a factor built from square roots of pivots that are zero only up to rounding (eps |P'|)
+                    # reaches sqrt(eps |P'|) along the kernel: the tolerance is of that order
+                    tol_s = 64 * n * math.sqrt(EPS * max(vlib.fnorm(P), 1e-300)) * wmax * n + 256 * n * EPS * max(abs(float(a)) for a in mu) * wmax
+                    acc.mx("support_err_over_tol", dotp / tol_s)
+                    acc.hit("singular-covariance:kernel-direction-checked")
+                    if dotp > tol_s:
+                        prop.append(("support", "%s: particle %d: x - mu' has a component %.3g along the kernel of the singular covariance (tol %.3g): "
+                                     "the position left mu' + range(P')" % (tag, i, dotp, tol_s)))
+                if not math.isfinite(cur.weight(i)):
+                    acc.hit("note:non-finite-log-weight-for-singular-covariance (no proposal density; not decided)")
+            if cur.means != hs["dmeans"] or cur.covs != hs["dcovs"]:
+                prop.append(("belief-not-wrapped-step", "%s: beliefs differ from the wrapped correction run directly" % tag))
+            return None, None, None
         if any(not math.isfinite(unhex(a)) for a in hs["dmeans"] + hs["dcovs"]):
             acc.hit("note:wrapped-step-returned-non-finite-beliefs (case not decided further)")
             return None, None, None
